@@ -15,30 +15,56 @@ theorem b8_toNat (n : Nat) (h : n < 256) : (b8 n).toNat = n := by
 @[simp] theorem oct_cons_succ (a : UInt8) (l : Bytes) (n : Nat) : oct (a :: l) (n + 1) = oct l n := by
   simp [oct]
 
-/-- RFC 791, IHL = 5 -/
-def encIPv4 (h : IPv4Hdr) : Bytes :=
-  [b8 (h.version * 16 + 5), b8 h.tos, b8 (h.totalLen / 256), b8 (h.totalLen % 256), b8 (h.id / 256), b8 (h.id % 256),
+/-- RFC 791: version and header length (IHL, in 32-bit words: 5 for the fixed part plus the options),
+type of service, total length, identification, flags / fragment offset, time to live, protocol, header
+checksum, source and destination address, then the options (already padded to a multiple of four
+octets, as the header length field can only express that) -/
+def encIPv4 (h : IPv4Hdr) (opts : Bytes) : Bytes :=
+  [b8 (h.version * 16 + (5 + opts.length / 4)), b8 h.tos, b8 (h.totalLen / 256), b8 (h.totalLen % 256),
+   b8 (h.id / 256), b8 (h.id % 256),
    b8 (h.flags * 32 + h.fragOff / 256), b8 (h.fragOff % 256), b8 h.ttl, b8 h.protocol,
-   b8 (h.checksum / 256), b8 (h.checksum % 256)] ++ (h.src ++ h.dst)
+   b8 (h.checksum / 256), b8 (h.checksum % 256)] ++ (h.src ++ (h.dst ++ opts))
 
 def IPv4Hdr.WF (h : IPv4Hdr) : Prop :=
   h.version < 16 ∧ h.tos < 256 ∧ h.totalLen < 65536 ∧ h.id < 65536 ∧ h.flags < 8 ∧ h.fragOff < 8192 ∧
   h.ttl < 256 ∧ h.protocol < 256 ∧ h.checksum < 65536 ∧ h.src.length = 4 ∧ h.dst.length = 4
 
-theorem decodeIPv4_enc (h : IPv4Hdr) (rest : Bytes) (hwf : h.WF) :
-    decodeIPv4 (encIPv4 h ++ rest) = .ok (h, rest) := by
+/-- IPv4 options as the header length field can announce them: a whole number of 32-bit words, at most
+ten (IHL 5 … 15); the content is arbitrary -/
+def OptsWF (opts : Bytes) : Prop := opts.length % 4 = 0 ∧ opts.length ≤ 40
+
+theorem ihlOctets_enc (v n : Nat) (h1 : n % 4 = 0) (h2 : n ≤ 40) :
+    ihlOctets (v * 16 + (5 + n / 4)) = 20 + n := by
+  unfold ihlOctets
+  have : (v * 16 + (5 + n / 4)) % 16 = 5 + n / 4 := by omega
+  rw [this]
+  split <;> omega
+
+theorem encIPv4_length (h : IPv4Hdr) (opts : Bytes) (hs : h.src.length = 4) (hd : h.dst.length = 4) :
+    (encIPv4 h opts).length = 20 + opts.length := by
+  simp [encIPv4, hs, hd]; omega
+
+/-- **IPv4 with any options**: every field is the value at its RFC 791 position, whatever the option
+octets are, and what is handed to the transport layer is what follows the options -/
+theorem decodeIPv4_enc (h : IPv4Hdr) (opts rest : Bytes) (hwf : h.WF) (ho : OptsWF opts) :
+    decodeIPv4 (encIPv4 h opts ++ rest) = .ok (h, rest) := by
   obtain ⟨h1, h2, h3, h4, h5, h6, h7, h8, h9, h10, h11⟩ := hwf
-  have hlen : 20 ≤ (encIPv4 h ++ rest).length := by simp [encIPv4, h10, h11]; omega
-  rw [decodeIPv4_eq _ hlen]
+  obtain ⟨o1, o2⟩ := ho
+  have hl := encIPv4_length h opts h10 h11
+  have hlen : (encIPv4 h opts ++ rest).length = 20 + opts.length + rest.length := by
+    rw [List.length_append, hl]
+  have h0 : oct (encIPv4 h opts ++ rest) 0 = h.version * 16 + (5 + opts.length / 4) := by
+    simp only [encIPv4, List.cons_append, oct_cons_zero]
+    exact b8_toNat _ (by omega)
+  have hihl := ihlOctets_enc h.version opts.length o1 o2
+  rw [decodeIPv4_eq _ (by omega) (by rw [h0, hihl]; omega), h0, hihl, List.drop_left' hl]
   obtain ⟨version, tos, totalLen, id, flags, fragOff, ttl, protocol, checksum, src, dst⟩ := h
   simp only at h1 h2 h3 h4 h5 h6 h7 h8 h9 h10 h11
   simp only [encIPv4, ipv4At, List.cons_append, List.nil_append, oct_cons_succ, oct_cons_zero,
     List.drop_succ_cons, List.drop_zero, List.append_assoc, List.take_left' h10, List.drop_left' h10,
-    List.take_left' h11, List.drop_left' h11]
+    List.take_left' h11]
   simp (disch := omega) only [b8_toNat]
-  have hdrop : List.drop 8 (src ++ (dst ++ rest)) = rest := by
-    rw [← List.append_assoc, List.drop_left' (by simp [h10, h11])]
-  simp only [Res.ok.injEq, Prod.mk.injEq, IPv4Hdr.mk.injEq, and_true, true_and, hdrop]
+  simp only [Res.ok.injEq, Prod.mk.injEq, IPv4Hdr.mk.injEq, and_true, true_and]
   omega
 
 /-- RFC 8200 -/
@@ -223,14 +249,14 @@ theorem decodeNext_udp (d : Bytes) (l4 : L4) (h : decodeUDP d = .ok l4) : decode
     · omega
   simp (disch := omega) [decodeNext, h, from?_le]
 
-theorem dissect_eth_ipv4_tcp_enc (dst src : Bytes) (h : IPv4Hdr) (sp dp seq ack off fl win cs urg : Nat)
-    (payload : Bytes) (hm : dst.length = 6 ∧ src.length = 6) (hwf : h.WF) (hp : h.protocol = 6)
+theorem dissect_eth_ipv4_tcp_enc (dst src : Bytes) (h : IPv4Hdr) (opts : Bytes) (sp dp seq ack off fl win cs urg : Nat)
+    (payload : Bytes) (hm : dst.length = 6 ∧ src.length = 6) (hwf : h.WF) (ho : OptsWF opts) (hp : h.protocol = 6)
     (ht : sp < 65536 ∧ dp < 65536 ∧ off < 16 ∧ fl < 512) :
-    dissect (encEth dst src 0x0800 ++ (encIPv4 h ++ (encTCP sp dp seq ack off fl win cs urg ++ payload))) 1 =
+    dissect (encEth dst src 0x0800 ++ (encIPv4 h opts ++ (encTCP sp dp seq ack off fl win cs urg ++ payload))) 1 =
       .ok ⟨⟨src, dst, 0, 0x0800⟩, .v4 h, .tcp sp dp off 0 fl⟩ := by
   simp only [dissect, if_true, dissectEth,
     decodeEthernet_enc dst src 0x0800 _ ⟨hm.1, hm.2, by decide, by decide⟩, ok_bind, dissectV4,
-    decodeIPv4_enc h _ hwf, hp, decodeNext_tcp _ _ (decodeTCP_enc sp dp seq ack off fl win cs urg payload ht), pure_eq]
+    decodeIPv4_enc h opts _ hwf ho, hp, decodeNext_tcp _ _ (decodeTCP_enc sp dp seq ack off fl win cs urg payload ht), pure_eq]
 
 theorem dissect_vlan_ipv6_udp_enc (dst src : Bytes) (tci : Nat) (h : IPv6Hdr) (sp dp len cs : Nat)
     (payload : Bytes) (hm : dst.length = 6 ∧ src.length = 6 ∧ tci < 65536) (hwf : h.WF) (hp : h.nextHeader = 17)
